@@ -28,7 +28,7 @@ EXPLANATION = (
     "probe frames, dtype string aliases resolving at run time."
 )
 LEVEL_RULE = "one obligation per (attribute, hop) / template slot / dictionary key found in the current tree"
-FLOORS = {"R1": 90, "R2": 14, "R3": 20, "R4": 3, "R5": 5, "R6": 3, "R7": 3, "R8": 1, "R9": 1, "R10": 1, "R12": 2, "R13": 1}
+FLOORS = {"R1": 90, "R2": 14, "R3": 20, "R4": 3, "R5": 5, "R6": 3, "R7": 3, "R8": 1, "R9": 1, "R10": 1, "R12": 2, "R13": 1, "R14": 1, "R15": 1}
 
 IO = "pandera/io/pandas_io.py"
 STATS = "pandera/schema_statistics/pandas.py"
@@ -570,6 +570,52 @@ def r13_no_hand_written_quotes(ctx):
            "all rendered through repr()" if n == 0 else f"{n} hand-quoted value(s)")
 
 
+def r14_lossless_index_source(ctx):
+    """The statistics of a MultiIndex are read from its level components (`.indexes`): `MultiIndex.columns` is a
+    dictionary of Column objects *rebuilt* from the levels with a few of their attributes (dtype, checks, nullable,
+    unique) and renamed to their dict key - reading it loses coerce / title / description and names unnamed levels 0, 1."""
+    st = ctx.ix.module(STATS)
+    f = st.functions.get("get_index_schema_statistics")
+    if f is None:
+        raise AnalysisError("get_index_schema_statistics missing")
+    ctx.touched(f)
+    comp = f.positional[0]
+    bad = [x for x in ast.walk(f.node) if (isinstance(x, ast.Attribute) and x.attr == "columns" and txt(x.value) == comp) or
+           (isinstance(x, ast.Call) and isinstance(x.func, ast.Name) and x.func.id == "getattr" and len(x.args) >= 2 and txt(x.args[0]) == comp
+            and isinstance(x.args[1], ast.Constant) and x.args[1].value == "columns")]
+    reads_indexes = any((isinstance(x, ast.Attribute) and x.attr == "indexes") or (isinstance(x, ast.Constant) and x.value == "indexes") for x in ast.walk(f.node))
+    ctx.ob("R14", f, "index statistics are read from the level components (`.indexes`), not from MultiIndex.columns", reads_indexes and not bad,
+           "levels come from .indexes" if reads_indexes and not bad else
+           f"`{txt(bad[0]) if bad else 'no .indexes read'}`: the Column objects of MultiIndex.columns carry only dtype / checks / nullable / unique of their level and are "
+           "renamed to the dict key, so level coerce / title / description are lost and unnamed levels come back named 0, 1", f.loc(bad[0]) if bad else None)
+
+
+def r15_column_keys_as_they_are(ctx):
+    """Column labels are arbitrary hashables; YAML can carry ints, floats, bools and dates as mapping keys.  The
+    serialised `columns` mapping is keyed by the label itself - `str(label)` makes from_yaml(to_yaml(S)) look for a
+    column '0' in a frame whose label is 0."""
+    io = ctx.ix.module(IO)
+    f = io.functions.get("serialize_schema")
+    from ..util import Expander
+    ex = Expander(f.node)
+    n = 0
+    for _once in (1,):
+        for _once2 in (1,):
+            if True:
+                for e in [f.node]:
+                    for dc in [x for x in ast.walk(e) if isinstance(x, ast.DictComp)
+                               and any(isinstance(y, ast.Constant) and y.value == "columns" for g in x.generators for y in ast.walk(g.iter))]:
+                        n += 1
+                        tg = {x.id for g in dc.generators for x in ast.walk(g.target) if isinstance(x, ast.Name)}
+                        ok = isinstance(dc.key, ast.Name) and dc.key.id in tg
+                        ctx.ob("R15", f, "serialize_schema keys the columns mapping by the column label itself", ok,
+                               "label used as key" if ok else
+                               f"key `{txt(dc.key)}` is a rendering of the label: DataFrameSchema({{0: Column(int)}}) comes back from YAML with the key '0' and rejects the frame "
+                               "it accepted", f.loc(dc))
+    if n < 1:
+        raise AnalysisError("serialize_schema: columns mapping comprehension not found")
+
+
 def run(ctx):
     from ..defassign import check_modules
     check_modules(ctx, "R10", ('pandera/io/pandas_io.py', 'pandera/schema_statistics/pandas.py'), "escapes serialisation: the round trip is not even attempted")
@@ -579,6 +625,8 @@ def run(ctx):
     r11_key_filters(ctx)
     r12_dtype_entries_are_strings(ctx)
     r13_no_hand_written_quotes(ctx)
+    r14_lossless_index_source(ctx)
+    r15_column_keys_as_they_are(ctx)
     ix = ctx.ix
     io = ix.module(IO)
     st = ix.module(STATS)
